@@ -11,6 +11,7 @@
 -/
 import FcProofs.Lemmas.VtkRead
 import FcProofs.Lemmas.VtuLayout
+import FcProofs.Lemmas.VtkAppendix
 namespace Fc
 open Spec
 
@@ -191,5 +192,32 @@ theorem C05_vtu_layout (cs : List (Nat × List Nat))
 theorem C05_cell_data {α} (cs : List (Nat × List Nat)) (vals : List α) (hl : vals.length = cs.length) :
     splitCellData vals (vtuContent cs) = some (cellDataContent cs vals) :=
   splitCellData_content cs vals hl
+
+/-
+  Raw-appended files are not well-formed XML; the reader then cuts the appendix out of the file content
+  with byte searches (`Fc.fallbackAppendix`, model of `_find_appendix_positions` / `_determine_encoding`).
+
+  FULL STATEMENT (not provable — finding C05-RAWTAG):
+      for every `head`, `appendix`, `post`:
+        bfind closeTag (head ++ appendix ++ closeTag ++ post) 0 = some (head ++ appendix).length
+  i.e. the end of the appendix is the position of the closing tag the writer put behind it.
+  It fails when the bytes `</AppendedData>` occur earlier — in particular inside the binary appendix —
+  because the code takes the FIRST occurrence in the whole file (negation witness in Witness/C05.lean,
+  replayed on the implementation by the harness on every run).  Proved: the statement under the
+  hypothesis that no earlier occurrence exists; the class predicate of the finding is its negation.
+  (The start position and the encoding detection — `content.find("_")`, `rfind("<AppendedData")` in the
+  last 100 bytes before the data plus the data itself — are modelled and compared with the code on every
+  generated raw file, but not covered by a theorem.)
+-/
+theorem C05_raw_appendix_end_partial (head appendix post : List Nat)
+    (hno : ∀ j, j < (head ++ appendix).length →
+      startsWith closeTag ((head ++ appendix ++ closeTag ++ post).drop j) = false) :
+    bfind closeTag (head ++ appendix ++ closeTag ++ post) 0 = some (head ++ appendix).length := by
+  unfold bfind
+  simp only [Nat.zero_le, if_true, List.drop_zero]
+  have := findAt_first closeTag (head ++ appendix ++ closeTag ++ post) 0 (head ++ appendix).length
+    (by simp only [List.length_append]; omega) hno
+    (by rw [List.append_assoc (head ++ appendix), List.drop_left' rfl]; exact startsWith_append _ _)
+  simpa using this
 
 end Fc
